@@ -50,6 +50,10 @@ type rdExec struct {
 	Aband  []int `json:"abandon,omitempty"`
 	Server bool  `json:"reader_is_server"`
 	Comp   bool  `json:"comp"`
+	// WriteBroken: every transport write fails (the peer stopped reading, a half-closed
+	// socket). With the default handlers replies are best effort; what the stream encodes
+	// is still delivered.
+	WriteBroken bool `json:"every_transport_write_fails,omitempty"`
 }
 
 func runC03(ctx *core.Ctx, out *core.Out) {
@@ -94,6 +98,10 @@ func runC03(ctx *core.Ctx, out *core.Out) {
 				}
 			}
 		}
+		if r.Chance(1, 8) {
+			ex.WriteBroken = true
+			out.Count("executions_with_a_broken_write_side", 1)
+		}
 		sig := fmt.Sprintf("%x|%s", core.Hash(string(st.Bytes)), core.J(ex))
 		out.Eval(sig, nontriv)
 		if !execRead(out, "C03", st, exp, ex, r) {
@@ -118,6 +126,9 @@ func execRead(out *core.Out, id string, st *Stream, exp []Ev, ex rdExec, r *gen.
 		out.Count("streams_ending_with_data_and_eof_in_one_read", 1)
 	}
 	nc := xport.New(chunks)
+	if ex.WriteBroken {
+		nc.WriteErr = xport.ErrInjected
+	}
 	c := ws.VerifNewConn(nc, ex.Server, ex.RB, 256, nil, nil, ex.Comp)
 	rd := &Reader{C: c}
 	rd.InstallRecordingHandlers()
